@@ -427,6 +427,10 @@ def run_spans(ck):
         ck.violation({"property": PID, "kind": "token-level model and implementation (or the two models) disagree", "case": slim(w),
                       "broken": "correspondence SpansJson.zt_decode / read_row_tok / read_events vs decodeSpan / parseZipkinJSON"}, no_input=True)
     illf = set(tot["TI"])
+    acc_ill = [c["id"] for c in zcases if c["id"] in illf and not c["err"] and c["id"] not in known_ids]
+    ck.obligation("every accepted Zipkin request of the run consists of well-formed token streams (stream_wf, the hypothesis of read_back_token_streams): "
+                  "%d of %d Zipkin requests have a stream that is not one JSON value, all of them refused" % (len(illf), len(zcases)), not acc_ill,
+                  "accepted although ill-formed: %s" % acc_ill[:10])
     ck.extra["zipkin_requests_with_a_line_that_is_not_one_json_value"] = len(illf)
     ck.extra["zipkin_such_requests_refused"] = sum(1 for c in zcases if c["id"] in illf and c["err"])
     # the parser's responses (mid-request flush): model of onSpan's Size bookkeeping vs the observed responses, and the whole-span oracle
